@@ -2,9 +2,11 @@
 //! line:  <kind t|l|h|u> P <conn>:<isolated token>:<t ms>:<frame hex> ...      (packets in interleaved order)
 //!   isolated token = result token of that packet when its connection is run ALONE on a fresh analyzer
 //!   (computed by `gen` with the real analyzers and embedded in the case).
+//!        <kind t|l> <T|L> <cap> <conn>:<t ms>:<frame hex> ...                  (concrete kinds, see concrete.rs / EC07.v)
 //! run: the interleaved trace on ONE fresh analyzer -> result tokens joined by ','; in addition the isolated
 //!   runs are repeated and compared (direct oracle, `!isolation …`), and after the trace a fresh extra
 //!   connection is analysed to check that nothing disabled the analyzer (`!disabled …`).
+mod concrete;
 use cflow::*;
 use hnv_common::*;
 use huginn_net_db::Database;
@@ -19,6 +21,12 @@ fn parse(line: &str) -> (Kind, Vec<(usize, String, u64, Vec<u8>)>) {
 }
 
 fn run(line: &str) -> String {
+    if let Some(k) = line.split(' ').nth(1) {
+        if k == "L" || k == "T" {
+            let (kind, cap, evs) = concrete::parse(line);
+            return if kind == 'L' { concrete::run_tls(cap, &evs) } else { DB.with(|db| concrete::run_tcp(db, cap, &evs)) };
+        }
+    }
     let (kind, pk) = parse(line);
     DB.with(|db| {
         let mut a = Seq::new(kind, db, 1000);
@@ -50,38 +58,53 @@ fn run(line: &str) -> String {
     })
 }
 
+/// 2-6 generated connections (some sharing the client host, some on one address) plus, every third case, two
+/// sibling connections that share three of the four tuple parts
+fn conn_set(r: &mut Rng, case: usize, kind: Kind) -> Vec<Vec<Frame>> {
+    let n = 2 + r.below(5) as usize;
+    let mut conns = Vec::new();
+    for j in 0..n {
+        let ck = match kind {
+            Kind::Tcp => *r.pick(&[0u64, 1, 2, 3]),
+            Kind::Tls => *r.pick(&[1u64, 1, 1, 0]),
+            Kind::Http => *r.pick(&[0u64, 3, 3, 0, 2]),
+            Kind::Unified => r.below(4),
+        };
+        // connections may share the client HOST (same address, different port) to stress keying
+        let id = if r.chance(1, 3) && j > 0 { (case as u64 * 7 + j as u64) % 200 + 200 * (j as u64 % 3) } else { (case as u64 * 7 + j as u64 * 31) % 5000 };
+        let v6 = r.chance(1, 5); let t0 = 1_000_000 + r.below(1000);
+        let mut sp = ConnSpec::new(ck, v6, id + j as u64 * 6000); sp.same_host = r.chance(1, 6);
+        conns.push(connection(r, &sp, t0));
+    }
+    // sibling connections: distinct 4-tuples sharing three of the four parts (same client address AND port towards
+    // different servers; different clients using one ephemeral port towards one server; one client, two ports, one
+    // server; one client port towards two ports of one server)
+    if case % 3 == 1 {
+        let v6 = r.chance(1, 2); let base = 100 + r.below(50); let port = 30000 + r.below(1000) as u16;
+        let ck = match kind { Kind::Tcp => 2u64, Kind::Tls => 1, Kind::Http => 0, Kind::Unified => *r.pick(&[0u64, 1, 2]) };
+        let t0 = 1_000_000 + r.below(1000);
+        // which single part differs: server address | client address | client port | server port
+        let variant = r.below(4);
+        for j in 0..2u64 {
+            let mut sp = ConnSpec::new(ck, v6, base);
+            match variant {
+                0 => { sp.cid = Some(base); sp.cport = Some(port); sp.sid = Some(10 + j); }
+                1 => { sp.cid = Some(base + j); sp.cport = Some(port); sp.sid = Some(7); }
+                _ => { sp.cid = Some(base); sp.cport = Some(if variant == 2 { port + j as u16 } else { port }); sp.sid = Some(7); }
+            }
+            let mut c = connection(r, &sp, t0 + 60 * j);
+            if variant == 3 && j == 1 { concrete::rewrite_server_port(&mut c, *r.pick(&[8443u16, 81, 1024, 1025])); }
+            conns.push(c);
+        }
+    }
+    conns
+}
+
 fn gen(r: &mut Rng, tier: &Tier, out: &mut Vec<String>) {
     let db = Database::load_default().expect("db");
     for case in 0..tier.scale(240, 4000) {
         let kind = [Kind::Tcp, Kind::Tls, Kind::Http, Kind::Unified][case % 4];
-        let n = 2 + r.below(5) as usize;
-        let mut conns = Vec::new();
-        for j in 0..n {
-            let ck = match kind {
-                Kind::Tcp => *r.pick(&[0u64, 1, 2, 3]),
-                Kind::Tls => *r.pick(&[1u64, 1, 1, 0]),
-                Kind::Http => *r.pick(&[0u64, 3, 3, 0, 2]),
-                Kind::Unified => r.below(4),
-            };
-            // connections may share the client HOST (same address, different port) to stress keying
-            let id = if r.chance(1, 3) && j > 0 { (case as u64 * 7 + j as u64) % 200 + 200 * (j as u64 % 3) } else { (case as u64 * 7 + j as u64 * 31) % 5000 };
-            let v6 = r.chance(1, 5); let t0 = 1_000_000 + r.below(1000);
-            let mut sp = ConnSpec::new(ck, v6, id + j as u64 * 6000); sp.same_host = r.chance(1, 6);
-            conns.push(connection(r, &sp, t0));
-        }
-        // sibling connections: same client address AND port towards different servers, or different clients
-        // using the same ephemeral port towards one server (distinct 4-tuples sharing three of four parts)
-        if case % 3 == 1 {
-            let v6 = r.chance(1, 2); let base = 100 + r.below(50); let port = 30000 + r.below(1000) as u16;
-            let ck = match kind { Kind::Tcp => 2u64, Kind::Tls => 1, Kind::Http => 0, Kind::Unified => *r.pick(&[0u64, 1, 2]) };
-            let t0 = 1_000_000 + r.below(1000);
-            for j in 0..2u64 {
-                let mut sp = ConnSpec::new(ck, v6, base);
-                if case % 2 == 0 { sp.cid = Some(base); sp.cport = Some(port); sp.sid = Some(10 + j); }
-                else { sp.cid = Some(base + j); sp.cport = Some(port); sp.sid = Some(7); }
-                conns.push(connection(r, &sp, t0 + 60 * j));
-            }
-        }
+        let conns = conn_set(r, case, kind);
         let n = conns.len();
         // isolated results with the real analyzer
         let iso: Vec<Vec<String>> = conns.iter().map(|c| { let mut a = Seq::new(kind, &db, 1000); c.iter().map(|(f, t)| tok(&a.packet(f, *t))).collect() }).collect();
@@ -93,6 +116,28 @@ fn gen(r: &mut Rng, tier: &Tier, out: &mut Vec<String>) {
             idx[*ci] += 1;
         }
         out.push(line);
+    }
+    // concrete kinds: the same connection sets and interleavings through the packet-level MODELS of the TLS and
+    // TCP analyzers (coq/Model/TlsAnalyzer.v, TcpAnalyzer.v); SPEC = every connection alone through the model
+    for case in 0..tier.scale(800, 5000) {
+        let tls = case % 2 == 0;
+        let kind = if tls { Kind::Tls } else { Kind::Tcp };
+        let mut conns = conn_set(r, case, kind);
+        if !tls && case % 4 == 1 {
+            // segments with several / truncated / oversized timestamp options, odd flag bytes
+            let v6 = r.chance(1, 3);
+            let extra = 1 + r.below(2);
+            for j in 0..extra { let t0 = 1_000_000 + r.below(500); conns.push(concrete::odd_ts_connection(r, v6, 300 + case as u64 % 100 + 50 * j, t0)); }
+        }
+        if case % 8 == 6 {
+            // malformed stream: bit flips outside addresses and ports, truncated frames
+            for c in conns.iter_mut() { for (f, _) in c.iter_mut() { if r.chance(1, 4) { concrete::mutate(r, f); } } }
+        }
+        // capacity: the analyzers' default size, or a table that just holds / does not hold the trace
+        // (eviction is part of the model; SPEC gives no verdict once the trace leaves the capacity)
+        let cap = match case % 16 { 3 | 10 => 1 + r.below(if tls { 3 } else { 6 }) as usize, 7 => 2 * conns.len(), _ => 1000 };
+        let tr = interleave(r, &conns, case % 5 == 0);
+        out.push(concrete::line(if tls { 'L' } else { 'T' }, cap, &tr));
     }
 }
 
